@@ -1,4 +1,5 @@
 import DigModel.Props.C10
+import DigModel.Proofs.ReachApi
 /-
   C11 — Soft value groups never trigger constructors.
 
@@ -9,6 +10,10 @@ import DigModel.Props.C10
   `C11_soft_last`: inside a parameter object the soft group fields are built after all other fields
   (so they see the members committed by the constructors those fields needed), and the values are put
   back in declaration order.
+  `C11_reaches_only_decorators` / `C11_never_triggers` (full strength, with `C03_only`): the only nodes a soft
+  group parameter makes reachable are the decorators of the group registered on the path to the root (and what
+  *they* need); when no scope on the path decorates the group, a soft group parameter makes **nothing**
+  reachable — so, by `C03_only`, an Invoke never enters a constructor on account of a soft group.
 -/
 namespace Dig.C11
 
@@ -27,6 +32,22 @@ theorem C11_soft_last (ctx : Ctx) (fuel : Nat) (ty : Nat) (fs : List Param) (c :
       EM.pure (.obj (interleave fs hard soft)) := by
   simp only [buildParam]
 
+theorem C11_reaches_only_decorators (st : St) (c : Nat) (k : Key) (w : Who) (h : Reach st c (.group k true) w) :
+    ∃ s d, s ∈ st.ancestors c ∧ aget (st.scope s).decorators k = some d ∧ ReachD st d w := by
+  cases h with
+  | decoSelf hs hd => exact ⟨_, _, hs, hd, Or.inl rfl⟩
+  | decoDep hs hd hl hr => exact ⟨_, _, hs, hd, Or.inr ⟨_, hl, hr⟩⟩
+
+theorem C11_never_triggers (st : St) (c : Nat) (k : Key)
+    (hd : ∀ s ∈ st.ancestors c, aget (st.scope s).decorators k = none) (w : Who) :
+    ¬ Reach st c (.group k true) w := by
+  intro h
+  obtain ⟨s, d, hs, hdec, _⟩ := C11_reaches_only_decorators st c k w h
+  rw [hd s hs] at hdec
+  cases hdec
+
 #print axioms C11_silent
+#print axioms C11_reaches_only_decorators
+#print axioms C11_never_triggers
 #print axioms C11_soft_last
 end Dig.C11
